@@ -1,317 +1,531 @@
 """C15 -- Newmark stepping (formulas and momentum-balance wiring).
 
+Every obligation is decided on the *results* of interpreting Mechanics.create_dynamics_functions and the closures it returns
+(rules/C15_model.py: the symbolic interpreter of rules/C02_model.py -- tiny mesh with concrete topology, symbolic fields / shape
+data / volumes / internal variables, uninterpreted material model, executed jax.vmap, recorded jax.hessian requests -- extended with
+try/except, match, dictionary dispatch, n-d gathers, record conveniences).  Nothing is matched against statement text, local names,
+helper names or idioms; what is used of the library is its public interface: the factory's signature, the field names of
+DynamicsFunctions, the FunctionSpace / Mesh attributes, the material-model interface.
+
   D1  composing predict and correct with UCorrection = U_{n+1} - U_pred gives exactly the Newmark formulas
         U_{n+1} = U + dt V + dt^2 [(1/2 - beta) A + beta A_{n+1}],  V_{n+1} = V + dt [(1 - gamma) A + gamma A_{n+1}]
-      as polynomial identities in U, V, A, A_{n+1}, dt, beta, gamma (symbolic execution of the two closures);
-  D2  momentum-balance wiring: the inertia term of the algorithmic energy is the kinetic energy density
-      1/2 rho v.v of (U - U_predicted), scaled by the same 1/(beta dt^2) as `correct` uses for the acceleration,
-      so stationarity is f_int + M A_{n+1} = 0; the element Hessian uses the same factor; the factory feeds
-      the same Newmark parameters to energy, Hessian, predictor and corrector.
-Not decided: energy conservation over histories, exact rigid translation, mass sums (numerical).
+      as polynomial identities in the nodal arrays U, V, A, A_{n+1} and dt, beta, gamma;
+  D2  momentum-balance wiring (T7): the algorithmic energy is  strain energy of U (weight 1, the idealisation's kinematics)
+      + rho/(2 beta dt^2) * sum_q w_q |N (U - U_pred)|^2  up to a U-independent term, so stationarity is f_int + M A_{n+1} = 0 with the
+      consistent mass M and the corrector's A_{n+1} = (U - U_pred)/(beta dt^2); the function differentiated by the element-Hessian
+      closure has the same strain part (linearised about U) and the same inertia quadratic form; the public
+      compute_newmark_lagrangian agrees with the factory's energy; the kinetic energy is 1/2 rho sum_q w_q |N V|^2 (consistent mass);
+      (T6) every closure of the factory hands the material the same displacement gradients (with a pressure projection switched on);
+      (T14) each mode2D yields its kinematics ([[grad u,0],[0,0]] / hoop strain u_r/r) in every closure, as in the statics factory.
+Not decided: energy conservation over histories, exact rigid translation (numerical consequences of the identities above).
 """
 from __future__ import annotations
 
-import ast
-
-from optilint.cfg import cfg_of
-from optilint.model import dotted, walk_local
 from optilint.core import Incomplete
-from optilint.expr import Algebra, NotPolynomial, Rat, Poly
-from .common import src, expand, same, calls_in, actual
+from optilint.tensoreval import Dual, Arr, Record, EvalError, _A
+from optilint.expr import Rat, simplify
+from .C15_model import (Session, kinematics, element_functions, element_sum, differentiated_arguments, short, ERR, MODES,
+                        ENERGY, STIFF, FIELD_ARGS, M, NE, NQ, ND)
 
 LEVEL = "proof"
-RULE_TEXT = "obligations = rational identities on the results of abstractly interpreting the dynamics factory's closures (predict/correct, energy, Hessian density)"
-EXPLANATION = ("Abstract interpretation (optilint.tensoreval, exact rational normal forms, integrals represented by their integrand at a generic "
-               "point, opaque material energy) of Mechanics.create_dynamics_functions and the closures it returns; comparison with the Newmark "
-               "update formulas; the gradient of the energy's inertia part, the corrector's acceleration and the Hessian density's inertia part "
-               "carry the same rho/(beta dt^2). Conservation properties of trajectories are not decided.")
+RULE_TEXT = ("obligations = rational identities between the results of symbolically interpreting the dynamics factory's closures "
+             "(predict/correct, algorithmic energy, function differentiated by the element Hessians, kinetic energy, material calls) and the "
+             "Newmark / momentum-balance specification")
+EXPLANATION = ("Symbolic interpretation (optilint.tensoreval + rules/C02_model.py + rules/C15_model.py: exact rational normal forms on a "
+               "3-element mesh with symbolic fields, shape data, volumes and internal variables, uninterpreted material model, executed vmap, "
+               "recorded hessian requests) of Mechanics.create_dynamics_functions and the closures it returns; comparison with the Newmark "
+               "update formulas, with strain energy + rho/(2 beta dt^2) |U - U_pred|^2_M, with the corrector's acceleration, with the "
+               "kinematics of each 2D idealisation; agreement of the gradients all closures hand to the material. Conservation properties of "
+               "trajectories are not decided.")
 
-M = "optimism.Mechanics"
+DYN = "create_dynamics_functions"
+STAT = "create_mechanics_functions"
 
 
 def run(ctx):
     ctx.need_module(M)
-    ctx.guard(d1, ctx)
-    ctx.guard(d2, ctx)
-    from .common import hook_agreement, mode_dispatch
-    ctx.guard(hook_agreement, ctx, "D2/T6-one-gradient-transformation", f"{M}:create_dynamics_functions", min_sites=3)
-    ctx.guard(mode_dispatch, ctx, "D2/T14-mode-dispatch", [f"{M}:parse_2D_to_3D_gradient_transformation", f"{M}:create_mechanics_functions"])
-    ctx.trust("exact rational arithmetic; normal forms of multivariate rational functions")
-    ctx.assume("dt > 0, beta > 0")
-
-
-class _Model:
-    """Mechanics.create_dynamics_functions interpreted by optilint.tensoreval on symbolic data.
-
-    Integration over the mesh is linear in the integrand and interpolation is linear and pointwise in the nodal field, so an
-    integral is represented by its integrand at one generic point: integrate_over_block(fs, field, state, dt, density, ...) evaluates
-    density(w, grad w, q, x, dt) with w = the field expression itself (entries u_i, p_i, ...) and grad w = the same linear combination
-    of gradient symbols (G_u_ij, or Gm_u_ij when a gradient transformation is passed).  The material's strain energy is an opaque
-    function SE@(arguments).  The vmapped element-stiffness kernel is represented by the density it is given, evaluated the same way.
-    """
-
-    def __init__(self, ctx):
-        from optilint.tensoreval import Interp, Dual, Arr, PyFunc, Record, _A, Closure
-        from optilint.expr import simplify
-        self.ctx = ctx
-        self.mod = ctx.need_module(M)
-        I = self.I = Interp(ctx.repo)
-        self.A = _A
-        self.Dual, self.Arr, self.Record, self.PyFunc = Dual, Arr, Record, PyFunc
-        S = self.S = lambda n: Dual(_A.atom(n))
-        self.fields = {"u": Arr([S("u0"), S("u1")], (2,)), "p": Arr([S("p0"), S("p1")], (2,))}
-        self.kernel_calls = []
-
-        def key(v):
-            if isinstance(v, Arr):
-                return "[" + ",".join(key(x) for x in v.data) + "]"
-            if isinstance(v, Dual) or isinstance(v, (int, float)):
-                return repr(simplify(I.num(v).a))
-            return repr(v)
-        self.key = key
-
-        def strain(it, args, kw):
-            return Dual(_A.atom("SE@(" + ";".join(key(a) for a in args) + ")"))
-        self.strain = PyFunc("strain_energy_density", strain)
-
-        def grad_of(field, modified):
-            """the same linear combination of gradient symbols as `field` is of nodal symbols"""
-            pre = "Gm_" if modified else "G_"
-            rows = []
-            for i in range(2):
-                row = []
-                for j in range(2):
-                    e = I.num(field.data[i]).a
-                    for nm in ("u", "p"):
-                        for c in range(2):
-                            e = _A.subst(e, f"{nm}{c}", _A.atom(f"{pre}{nm}{c}{j}") if c == i else _A.const(0))
-                    row.append(Dual(_A.norm(e)))
-                rows.append(row)
-            return Arr([x for r_ in rows for x in r_], (2, 2))
-        self.grad_of = grad_of
-
-        def point_density(field, state, dt, density, modified, extra=()):
-            if not isinstance(field, Arr) or field.shape != (2,):
-                from optilint.tensoreval import EvalError
-                raise EvalError("field argument is not a 2-vector expression of the symbolic fields")
-            return I.num(I.call(density, [field, grad_of(field, modified), state, S("X")] + [dt] + list(extra), {}))
-
-        def is_modifier(v):
-            return v is not None and not (isinstance(v, Closure) and v.scope.name == "default_modify_element_gradient")
-
-        def integrate(it, args, kw):
-            fs, field, state, dt, func = args[:5]
-            extra = args[6:]
-            mod_ = kw.get("modify_element_gradient")
-            # the density receives (w, grad w, q, x, *params) with params = (dt, *extra) in this library's kernels
-            return point_density(field, state, dt, func, is_modifier(mod_), extra)
-        I.special["optimism.FunctionSpace:integrate_over_block"] = integrate
-
-        def kernel(it, args, kw):
-            field, coords, state, dt, conn, shp, shpg, vols, density = args[:9]
-            mod_ = args[9] if len(args) > 9 else kw.get("modify_element_gradient")
-            v = point_density(field, state, dt, density, is_modifier(mod_))
-            self.kernel_calls.append(v)
-            return v
-        I.special[f"{M}:compute_element_stiffness_from_global_fields"] = kernel
-
-        def vmap(it, args, kw):
-            f = args[0]
-            return PyFunc("vmapped", lambda it2, a, k, f=f: it2.call(f, a, k))
-        I.ext_special["jax.vmap"] = vmap
-        I.ext_special["jax.jit"] = lambda it, args, kw: args[0]
-        I.ext_special["jax.value_and_grad"] = lambda it, args, kw: PyFunc("value_and_grad", lambda *a: None)
-
-    def factory(self):
-        S, Record = self.S, self.Record
-        fs = Record("FunctionSpace", ["mesh", "shapes", "shapeGrads", "vols", "quadratureRule"],
-                    [Record("Mesh", ["coords", "conns"], [S("coords"), S("conns")]), S("shapes"), S("shapeGrads"), S("vols"), S("quadratureRule")])
-        mat = Record("MaterialModel", ["compute_energy_density", "compute_initial_state", "compute_state_new", "density"],
-                     [self.strain, self.PyFunc("initial_state", lambda *a: S("q0")), self.PyFunc("state_new", lambda *a: S("q1")), S("rho")])
-        nm = Record("NewmarkParameters", ["gamma", "beta"], [S("gamma"), S("beta")])
-        return self.I.call(self.I.module_value(self.mod, "create_dynamics_functions"), [fs, "plane strain", mat, nm], {})
-
-    def split(self, v):
-        """(part without strain-energy atoms, part with them) of a scalar value"""
-        from optilint.expr import Rat, Poly
-        A = self.A
-        r = A.norm(self.I.num(v).a)
-        if not r.d.is_const():
-            # common denominator: split the numerator
-            pass
-        kin, se = {}, {}
-        for mono, c in r.n.t.items():
-            (se if any(a.startswith("SE@") for a, _e in mono) else kin)[mono] = c
-        return A.norm(Rat(Poly(kin), r.d)), A.norm(Rat(Poly(se), r.d))
-
-
-def d1(ctx):
-    rule = "D1/T7-newmark-formulas"
-    from optilint.tensoreval import EvalError, Raised
-    fac = ctx.need(f"{M}:create_dynamics_functions")
-    mdl = _Model(ctx)
-    I, A, S = mdl.I, mdl.A, mdl.S
-    try:
-        fns = mdl.factory()
-        predict, correct = fns.get("predict"), fns.get("correct")
-    except (EvalError, Raised, KeyError, ValueError, TypeError, AttributeError, IndexError) as ex:
-        ctx.undecided(rule, fac, None, construct="factory", detail=f"cannot interpret create_dynamics_functions: {ex}")
+    S = ctx.guard(Session, ctx)
+    if S is None:
         return
-    U, V, Ac, dt, A1 = S("U"), S("V"), S("A"), S("dt"), S("A1")
-    beta, gamma = S("beta"), S("gamma")
-    half = mdl.Dual(A.const(1) / A.const(2))
-    one = mdl.Dual(A.const(1))
-    try:
-        Up, Vp = I.call(predict, [U, V, Ac, dt], {})
-        U1 = U + dt * V + dt * dt * ((half - beta) * Ac + beta * A1)
-        V1 = V + dt * ((one - gamma) * Ac + gamma * A1)
-        Vc, Acode = I.call(correct, [I.num(U1) - I.num(Up), Vp, Ac, dt], {})
-    except (EvalError, Raised, KeyError, ValueError, TypeError, AttributeError, IndexError) as ex:
-        ctx.undecided(rule, fac, None, construct="predict/correct", detail=f"cannot interpret predict / correct: {ex}")
-        return
-    eq = lambda a, b: A.equal(I.num(a).a, I.num(b).a)
-    ctx.decide(rule, eq(Acode, A1), fac, None, construct="acceleration-consistent-with-displacement-update",
-               detail="correct(U_{n+1} - U_pred) returns A_{n+1} for U_{n+1} = U + dt V + dt^2[(1/2-beta)A + beta A_{n+1}]",
-               bad_detail=f"with U_(n+1) from the Newmark displacement formula, correct() returns the acceleration {I.num(Acode).a!r} instead of A_(n+1): "
-                          f"predictor/corrector do not realise U_(n+1) = U + dt V + dt^2[(1/2-beta)A + beta A_(n+1)]")
-    ctx.decide(rule, eq(Vc, V1), fac, None, construct="velocity-update",
-               detail="V_{n+1} = V + dt[(1-gamma)A + gamma A_{n+1}]",
-               bad_detail=f"predict+correct give V_(n+1) = {I.num(Vc).a!r}, but the Newmark formula is {I.num(V1).a!r}")
-    # the predictor alone: U_pred = U + dt V + dt^2 (1/2 - beta) A, V_pred = V + dt (1 - gamma) A  (what the energy's inertia term is centred on)
-    ctx.decide(rule, eq(Up, U + dt * V + dt * dt * (half - beta) * Ac) and eq(Vp, V + dt * (one - gamma) * Ac), fac, None, construct="predictor",
-               detail="U_pred = U + dt V + dt^2 (1/2 - beta) A, V_pred = V + dt (1 - gamma) A",
-               bad_detail=f"predict returns U_pred = {I.num(Up).a!r}, V_pred = {I.num(Vp).a!r}")
-    for q in sorted(I.visited):
+    ctx.guard(d1, ctx, S)
+    ctx.guard(d2, ctx, S)
+    ctx.guard(t6, ctx, S)
+    ctx.guard(t14, ctx, S)
+    for q in sorted(S.W.I.visited):
         sc = ctx.repo.find(q)
-        if sc is not None:
+        if sc is not None and not sc.module.is_test:
             ctx.touch(sc)
+    ctx.trust("python ast; optilint resolver; exact rational-function arithmetic; applications of uninterpreted functions are identified when "
+              "their arguments are equal (polynomial identity test modulo 2^61-1, confirmed by exact subtraction)")
+    ctx.trust("jax.hessian(f, argnums)(*args) is the second derivative of f w.r.t. positional argument argnums at args; jax.vmap(f, in_axes) "
+              "applies f along the leading axis of the arguments whose in_axes entry is 0; jax.jit is transparent")
+    ctx.assume("dt > 0, beta > 0; the material model is a pure function of (displacement gradient, internal variables, dt)")
 
 
-def d2(ctx):
-    rule = "D2/T7-inertia-wiring"
-    from optilint.tensoreval import EvalError, Raised
-    fac = ctx.need(f"{M}:create_dynamics_functions")
-    lag = ctx.need(f"{M}:compute_newmark_lagrangian")
-    hes = ctx.need(f"{M}:_compute_newmark_element_hessians") if ctx.repo.find(f"{M}:_compute_newmark_element_hessians") else fac
-    ked = ctx.need(f"{M}:kinetic_energy_density")
-    mdl = _Model(ctx)
-    I, A, S = mdl.I, mdl.A, mdl.S
-    ERR = (EvalError, Raised, KeyError, ValueError, TypeError, AttributeError, IndexError)
-    num = lambda v: I.num(v).a
-    # kinetic density = 1/2 rho <V,V>
+# ------------------------------------------------------------------ helpers
+
+def comb(*terms):
+    """sum_k c_k * X_k for Dual scalars c_k and arrays X_k of one shape"""
+    out = None
+    for c, X in terms:
+        t = X.map(lambda x, c=c: c * x)
+        out = t if out is None else out.zip(t, lambda a, b: a + b)
+    return out
+
+
+def pair(v, what):
+    if isinstance(v, Record):
+        v = list(v.values)
+    if not isinstance(v, (tuple, list)) or len(v) != 2:
+        raise EvalError(f"{what} does not return a pair")
+    return v[0], v[1]
+
+
+def first_diff(W, got, want):
+    """'entry: got ... expected ...' for the first entry where two numeric values differ"""
+    I = W.I
     try:
-        got = num(I.call(I.module_value(mdl.mod, "kinetic_energy_density"), [mdl.fields["u"], S("rho")], {}))
-        want = A.norm(A.const(1) / A.const(2) * A.atom("rho") * (A.atom("u0") * A.atom("u0") + A.atom("u1") * A.atom("u1")))
-        ctx.decide(rule, A.equal(got, want), ked, None, construct="kinetic-density", detail="1/2 rho v.v",
-                   bad_detail=f"kinetic energy density of v is {got!r}, not 1/2*density*dot(v, v)")
-    except ERR as ex:
-        ctx.undecided(rule, ked, None, construct="kinetic-density", detail=f"cannot interpret: {ex}")
-    try:
-        fns = mdl.factory()
-    except ERR as ex:
-        ctx.undecided(rule, fac, None, construct="factory", detail=f"cannot interpret create_dynamics_functions: {ex}")
+        got, want = I.num(got), I.num(want)
+    except EvalError:
+        return f"{short(got, 120)} is not a numeric value"
+    if isinstance(got, Arr) and isinstance(want, Arr) and got.shape == want.shape:
+        import itertools
+        for ix in itertools.product(*[range(s) for s in got.shape]):
+            g, w = got.get(ix), want.get(ix)
+            if not _A.is_zero(_A.norm(g.a - w.a)):
+                return f"entry {list(ix)}: {short(simplify(_A.norm(g.a)), 200)} instead of {short(simplify(_A.norm(w.a)), 200)}"
+        return "equal"
+    if isinstance(got, Arr) or isinstance(want, Arr):
+        return f"shape {getattr(got, 'shape', ())} instead of {getattr(want, 'shape', ())}"
+    return f"{short(simplify(_A.norm(got.a)), 200)} instead of {short(simplify(_A.norm(want.a)), 200)}"
+
+
+def tri(ok, tainted):
+    """a derived difference is only reliable when no kernel fell back to an uninterpreted application"""
+    return True if ok else (None if tainted else False)
+
+
+def decide(ctx, S, rule, ok, tainted, scope, construct="", detail="", bad_detail=""):
+    """ctx.decide, except that a derived difference (ok False) counts as UNDECIDED when a kernel on the way could not be interpreted and was
+    replaced by an uninterpreted application: equalities proved with it are sound (congruence), differences are not"""
+    if ok is False and tainted:
+        t = S.W.I.taint[-1] if S.W.I.taint else ("?", "?")
+        bad_detail = (f"not decided: {t[0].split(':')[-1]} could not be interpreted ({t[1]}) and was treated as an uninterpreted function; "
+                      f"with that: {bad_detail}")
+        ok = None
+    return ctx.decide(rule, ok, scope, None, construct=construct, detail=detail, bad_detail=bad_detail)
+
+
+def base_case(ctx, S, rule, fac_scope):
+    case = S.case(DYN, "plane strain", None)
+    if case.fns is None:
+        ctx.undecided(rule, fac_scope, None, construct="factory",
+                      detail=f"cannot interpret {DYN}(functionSpace, 'plane strain', materialModel, newmarkParameters): {case.error or 'raised ' + str(case.rejected)}")
+        return None
+    return case
+
+
+def closure(case, name):
+    if name not in case.fns.fields or case.fns.get(name) is None:
+        raise EvalError(f"the factory's result has no closure `{name}`")
+    return case.fns.get(name)
+
+
+# ------------------------------------------------------------------ D1: predictor / corrector = Newmark formulas
+
+def d1(ctx, S):
+    rule = "D1/T7-newmark-formulas"
+    W, I = S.W, S.W.I
+    fac = ctx.need(f"{M}:{DYN}")
+    case = base_case(ctx, S, rule, fac)
+    if case is None:
         return
-    u, p = mdl.fields["u"], mdl.fields["p"]
-    q, dt = S("Q"), S("dt")
-    scale = A.atom("rho") / (A.atom("beta") * A.atom("dt") * A.atom("dt"))
-    se_want = A.atom("SE@(" + mdl.key(mdl.grad_of(u, True)) + ";" + mdl.key(q) + ";" + mdl.key(dt) + ")")
-    # ---- algorithmic energy
+    U, V, Ac, A1, dt = W.U, W.V, W.Ac, W.A1, W.dt
+    beta, gamma = I.sym("beta"), I.sym("gamma")
+    half, one = Dual(_A.const(1) / _A.const(2)), Dual(1)
     try:
-        E = I.call(fns.get("compute_algorithmic_energy"), [u, p, q, dt], {})
-        kin, se = mdl.split(E)
+        Up, Vp = pair(I.call(closure(case, "predict"), [U, V, Ac, dt], {}), "predict")
+        U1 = comb((one, U), (dt, V), (dt * dt * (half - beta), Ac), (dt * dt * beta, A1))
+        V1 = comb((one, V), (dt * (one - gamma), Ac), (dt * gamma, A1))
+        dU = I.num(U1).zip(I.num(Up), lambda a, b: a - b)
+        Vc, Acode = pair(I.call(closure(case, "correct"), [dU, Vp, Ac, dt], {}), "correct")
     except ERR as ex:
-        ctx.undecided(rule, lag, None, construct="energy", detail=f"cannot interpret compute_algorithmic_energy: {ex}")
-        kin = se = None
-    if kin is not None:
-        ctx.decide(rule, A.equal(se, se_want), lag, None, construct="energy:strain-part",
+        ctx.undecided(rule, fac, None, construct="predict/correct", detail=f"cannot interpret predict / correct: {type(ex).__name__}: {ex}")
+        return
+    t = case.tainted or bool(I.taint)
+    same = lambda a, b: W.same(a, b)
+    # the predictor alone (what the energy's inertia term is centred on)
+    Upw = comb((one, U), (dt, V), (dt * dt * (half - beta), Ac))
+    Vpw = comb((one, V), (dt * (one - gamma), Ac))
+    ru, rv = same(Up, Upw), same(Vp, Vpw)
+    rp = False if (ru is False or rv is False) else (None if (ru is None or rv is None) else True)
+    blame = (" (predict() is as specified: the defect is in correct())" if rp is True else
+             " (predict() already deviates, see the predictor obligation)" if rp is False else "")
+    r = same(Acode, A1)
+    decide(ctx, S, rule, r, t, fac, construct="acceleration-consistent-with-displacement-update",
+           detail="correct(U_{n+1} - U_pred) returns A_{n+1} for U_{n+1} = U + dt V + dt^2[(1/2-beta)A + beta A_{n+1}]",
+           bad_detail=f"with U_(n+1) from the Newmark displacement formula, correct() does not return the acceleration A_(n+1) ({first_diff(W, Acode, A1)}): "
+                      f"predict/correct do not realise U_(n+1) = U + dt V + dt^2[(1/2-beta)A + beta A_(n+1)]{blame}")
+    r = same(Vc, V1)
+    decide(ctx, S, rule, r, t, fac, construct="velocity-update",
+           detail="V_{n+1} = V + dt[(1-gamma)A + gamma A_{n+1}]",
+           bad_detail=f"predict followed by correct does not give the Newmark velocity V_(n+1) = V + dt[(1-gamma)A + gamma A_(n+1)]: {first_diff(W, Vc, V1)}{blame}")
+    decide(ctx, S, rule, rp, t, fac, construct="predictor",
+           detail="U_pred = U + dt V + dt^2 (1/2 - beta) A, V_pred = V + dt (1 - gamma) A",
+           bad_detail=f"predict(): U_pred {first_diff(W, Up, Upw)}; V_pred {first_diff(W, Vp, Vpw)}")
+
+
+# ------------------------------------------------------------------ D2/T7: inertia wiring
+
+def strain_diagnosis(W, se: Rat, want: Rat):
+    """why the strain part `se` of an integral is not the specification `want`"""
+    I = W.I
+    se, want = simplify(_A.norm(se)), simplify(_A.norm(want))
+    if _A.is_zero(se):
+        return "it has no strain-energy term at all"
+    have = {a for a in se.atoms() if a.startswith("SE:")}
+    spec = {a for a in want.atoms() if a.startswith("SE:")}
+    odd = sorted(have - spec)
+    if odd:
+        info = I.atom_info.get(odd[0])
+        where = ""
+        if info:
+            deps = {s.split("_")[0] for s in info[2]}
+            names = {"U": "U", "UP": "UPredicted", "dN": "the shape function gradients", "N": "the shape functions", "X": "the coordinates",
+                     "Q": "the internal variables", "dt": "dt", "beta": "beta", "gamma": "gamma"}
+            g = info[1][0] if info[1] else None
+            where = (f"; e.g. the material is evaluated at a {'x'.join(map(str, g.shape)) if isinstance(g, Arr) else ''} gradient argument {short(g, 140)} "
+                     f"(arguments depend on {', '.join(sorted(names.get(d, d) for d in deps))})")
+        return (f"the material's energy density is evaluated {len(odd)}x at arguments that are not (the idealisation's 3x3 gradient of U at a quadrature point, "
+                f"that point's internal variables, dt){where}")
+    missing = sorted(spec - have)
+    if missing:
+        return f"{len(missing)} of the {NE * NQ} quadrature points contribute no strain energy"
+    # same material evaluations, other weights
+    a = sorted(have)[0]
+    cg = _A.norm(_A.diff(se, a))
+    cw = _A.norm(_A.diff(want, a))
+    return f"the strain energy density at a quadrature point is weighted by {short(simplify(cg), 120)} instead of its quadrature volume {short(simplify(cw), 40)}"
+
+
+def d2(ctx, S):
+    rule = "D2/T7-inertia-wiring"
+    W, I = S.W, S.W.I
+    fac = ctx.need(f"{M}:{DYN}")
+    lag = ctx.repo.find(f"{M}:compute_newmark_lagrangian") or fac
+    ked = ctx.repo.find(f"{M}:kinetic_energy_density")
+    num = lambda v: _A.norm(I.num(v).a)
+    rho = W.material("A").get("density")
+    beta, dt = I.sym("beta"), W.dt
+    # ---- kinetic energy density = 1/2 rho <v, v>
+    if ked is not None:
+        try:
+            v = I.sym_arr("v", (ND,))
+            got = num(I.call(W.fn(M, "kinetic_energy_density"), [v, rho], {}))
+            want = _A.norm((Dual(_A.const(1) / _A.const(2)) * rho * sum((x * x for x in v.data), Dual(0))).a)
+            ctx.decide(rule, _A.equal(got, want), ked, None, construct="kinetic-density", detail="1/2 rho v.v",
+                       bad_detail=f"kinetic energy density of v is {short(simplify(got), 200)}, not 1/2*density*dot(v, v)")
+        except ERR as ex:
+            ctx.undecided(rule, ked, None, construct="kinetic-density", detail=f"cannot interpret: {type(ex).__name__}: {ex}")
+    case = base_case(ctx, S, rule, fac)
+    if case is None:
+        return
+    # ---- the kinetic energy closure: 1/2 rho sum_q w_q |N V|^2 (consistent mass, sums to rho * area for a partition of unity)
+    ke = case.ev("compute_output_kinetic_energy")
+    if ke.error:
+        ctx.undecided(rule, fac, None, construct="kinetic-energy-closure", detail=f"cannot interpret compute_output_kinetic_energy: {ke.error}")
+    else:
+        try:
+            got, want = W.rat(ke.value), W.kinetic_spec(W.V)
+            decide(ctx, S, rule, _A.equal(got, want), ke.tainted, fac, construct="kinetic-energy-closure",
+                       detail="compute_output_kinetic_energy(V) = 1/2 rho sum_q w_q |N V|^2: the consistent mass of the interpolation",
+                       bad_detail=f"compute_output_kinetic_energy(V) is not 1/2*density*sum_q w_q |sum_a N_a V_a|^2: d/dV[0,0] = "
+                                  f"{short(simplify(_A.norm(_A.diff(got, 'V_0_0'))), 160)} instead of {short(simplify(_A.norm(_A.diff(want, 'V_0_0'))), 160)}")
+        except ERR as ex:
+            ctx.undecided(rule, fac, None, construct="kinetic-energy-closure", detail=f"compute_output_kinetic_energy does not return a scalar: {ex}")
+    scale = Dual(1) / (beta * dt * dt)
+    dU = W.U.zip(W.UP, lambda a, b: a - b)
+    kin_want = _A.norm(scale.a * W.kinetic_spec(dU))
+    se_want = W.strain_spec("plane strain")
+    # ---- algorithmic energy
+    E = kin = None
+    ee = case.ev(ENERGY["dyn"])
+    if ee.error:
+        ctx.undecided(rule, lag, None, construct="energy", detail=f"cannot interpret compute_algorithmic_energy: {ee.error}")
+    else:
+        try:
+            E = W.rat(ee.value)
+            kin, se = W.split_energy(E)
+        except ERR as ex:
+            ctx.undecided(rule, lag, None, construct="energy", detail=f"compute_algorithmic_energy does not return a scalar: {ex}")
+            E = None
+    if E is not None:
+        ok = _A.equal(se, se_want)
+        decide(ctx, S, rule, ok, ee.tainted, lag, construct="energy:strain-part",
                    detail="strain energy of U (with the factory's gradient transformation), weight 1",
-                   bad_detail=f"the strain part of the algorithmic energy is {se!r}; it must be the material's energy density of the (transformed) gradient of U, "
-                              f"the state and dt: {se_want!r}")
+                   bad_detail="the strain part of the algorithmic energy is not sum_q w_q * energy_density(3x3 plane-strain gradient of U, state, dt): "
+                              + ("" if ok else strain_diagnosis(W, se, se_want)))
+        D = _A.norm(kin - kin_want)
+        odd = W.foreign_atoms(D)
         bad = None
-        for i in range(2):
-            g = A.norm(A.diff(kin, f"u{i}"))
-            w = A.norm(scale * (A.atom(f"u{i}") - A.atom(f"p{i}")))
-            if not A.equal(g, w):
-                bad = f"d(inertia term)/dU_{i} = {g!r}, but M A_(n+1) needs rho*(U_{i} - UPredicted_{i})/(beta*dt^2) = {w!r}"
-                break
-        ctx.decide(rule, bad is None, lag, None, construct="energy:inertia-gradient",
-                   detail="d(inertia term)/dU = rho (U - U_pred)/(beta dt^2) = M A_{n+1} with the corrector's A_{n+1}",
-                   bad_detail=f"{bad}: the minimiser of the algorithmic energy would not satisfy f_int + M A_(n+1) = 0")
+        if not odd:
+            for s_ in sorted(W.usyms):
+                g = _A.norm(_A.diff(D, s_))
+                if not _A.is_zero(g):
+                    n_, i_ = s_.split("_")[1:]
+                    gk, gw = _A.norm(_A.diff(kin, s_)), _A.norm(_A.diff(kin_want, s_))
+                    ratio = None if _A.is_zero(gw) else simplify(_A.norm(gk / gw))
+                    if ratio is not None and len(repr(ratio)) <= 80:
+                        bad = (f"d(inertia term)/dU[{n_},{i_}] is {ratio!r} times (M A_(n+1))[{n_},{i_}] (consistent mass M, A_(n+1) = (U - UPredicted)/(beta*dt^2), "
+                               f"i.e. {short(simplify(gw), 160)})")
+                    else:
+                        bad = (f"d(inertia term)/dU[{n_},{i_}] = {short(simplify(gk), 220)}, but (M A_(n+1))[{n_},{i_}] with the consistent mass and "
+                               f"A_(n+1) = (U - UPredicted)/(beta*dt^2) is {short(simplify(gw), 220)}")
+                    break
+        ctx.decide(rule, None if odd else tri(bad is None, ee.tainted), lag, None, construct="energy:inertia-gradient",
+                   detail="d(inertia term)/dU = M (U - U_pred)/(beta dt^2) = M A_{n+1} with the consistent mass M and the corrector's A_{n+1}",
+                   bad_detail=(f"the inertia term contains applications of functions that are not interpreted: {sorted(odd)[:3]}" if odd else
+                               f"{bad}: the minimiser of the algorithmic energy would not satisfy f_int + M A_(n+1) = 0"))
     # ---- corrector: A_{n+1} = (U - U_pred)/(beta dt^2)
     try:
-        W = S("W")
-        _, Acode = I.call(fns.get("correct"), [W, S("V"), S("A"), dt], {})
-        okc = A.equal(num(Acode), A.norm(A.atom("W") / (A.atom("beta") * A.atom("dt") * A.atom("dt"))))
-        ctx.decide(rule, okc, fac, None, construct="inertia-factor-corrector",
+        _, Acode = pair(I.call(closure(case, "correct"), [W.Wc, W.V, W.Ac, dt], {}), "correct")
+        want = W.Wc.map(lambda x: x * scale)
+        r = W.same(Acode, want)
+        decide(ctx, S, rule, r, case.tainted, fac, construct="inertia-factor-corrector",
                    detail="A_{n+1} = (U - U_pred)/(beta dt^2): same factor as the inertia term, so d(energy)/dU = f_int + M A_{n+1}",
-                   bad_detail=f"corrector computes the acceleration as {num(Acode)!r}; the inertia term of the energy uses 1/(beta*dt^2): "
-                              f"the minimiser would not satisfy f_int + M A_(n+1) = 0")
+                   bad_detail=f"the corrector does not compute the acceleration as UCorrection/(beta*dt^2) ({first_diff(W, Acode, want)}), while the inertia "
+                              f"term of the energy must use 1/(beta*dt^2): the minimiser would not satisfy f_int + M A_(n+1) = 0")
     except ERR as ex:
-        ctx.undecided(rule, fac, None, construct="inertia-factor-corrector", detail=f"cannot interpret correct: {ex}")
-    # ---- element Hessians: density handed to the stiffness kernel
-    try:
-        del mdl.kernel_calls[:]
-        H = I.call(fns.get("compute_element_hessians"), [u, p, q, dt], {})
-        kinh, seh = mdl.split(H)
-    except ERR as ex:
-        ctx.undecided(rule, hes, None, construct="hessian", detail=f"cannot interpret compute_element_hessians: {ex}")
-        kinh = None
-    if kinh is not None:
-        ctx.decide(rule, bool(mdl.kernel_calls) and A.equal(seh, se_want), hes, None, construct="hessian:strain-part",
-                   detail="the Hessian density contains the strain energy linearised about U, weight 1",
-                   bad_detail=f"the strain part of the Hessian density is {seh!r}; it must be {se_want!r} (linearised about U, not about U - UPredicted)")
+        ctx.undecided(rule, fac, None, construct="inertia-factor-corrector", detail=f"cannot interpret correct: {type(ex).__name__}: {ex}")
+    # ---- element Hessians: the function that is differentiated
+    he = case.ev(STIFF["dyn"])
+    F = None
+    if he.error:
+        ctx.undecided(rule, fac, None, construct="hessian", detail=f"cannot interpret compute_element_hessians: {he.error}")
+    else:
+        ef, why = element_functions(S, he)
+        if ef is None:
+            ctx.undecided(rule, fac, None, construct="hessian", detail=f"compute_element_hessians: {why}")
+        else:
+            F, err, _, ftaint = element_sum(S, ef)
+            if err:
+                ctx.undecided(rule, fac, None, construct="hessian", detail=f"compute_element_hessians: {err}")
+                F = None
+    if F is not None:
+        tainted = he.tainted or ftaint
+        problem, positive = differentiated_arguments(S, ef)
+        kinh, seh = W.split_energy(F)
+        ok = _A.equal(seh, se_want)
+        if problem is not None:
+            ctx.decide(rule, tri(False, tainted) if positive else None, fac, None, construct="hessian:strain-part", bad_detail=f"compute_element_hessians: {problem}")
+        else:
+            decide(ctx, S, rule, ok, tainted, fac, construct="hessian:strain-part",
+                       detail="the function differentiated by compute_element_hessians contains the strain energy of U (linearised about U), weight 1",
+                       bad_detail="the strain part of the function differentiated by compute_element_hessians is not the strain energy of U (the energy must be "
+                                  "linearised about U, not about U - UPredicted, with the same kinematics and weight 1): " + ("" if ok else strain_diagnosis(W, seh, se_want)))
+        Dh = _A.norm(kinh - kin_want)
+        odd = W.foreign_atoms(Dh)
         bad = None
-        for i in range(2):
-            for j in range(2):
-                h = A.norm(A.diff(A.diff(kinh, f"u{i}"), f"u{j}"))
-                w = A.norm(scale) if i == j else A.const(0)
-                if not A.equal(h, w):
-                    bad = f"d2(inertia density)/dU_{i}dU_{j} = {h!r}, expected {w!r}"
-        ctx.decide(rule, bad is None, hes, None, construct="inertia-factor-hessian",
-                   detail="Hessian of the inertia density = rho/(beta dt^2) I: the same factor as the energy and the corrector",
-                   bad_detail=f"{bad}: the tangent is not the derivative of the algorithmic energy's gradient")
-    # ---- direct (non-factory) entry point agrees with the factory wiring: same density, beta and dt reach compute_newmark_lagrangian
-    try:
-        E2 = I.call(I.module_value(mdl.mod, "compute_newmark_lagrangian"),
-                    [S("fs"), u, p, q, S("rho"), dt, S("beta"), mdl.strain, mdl.PyFunc("modify", lambda *a: None)], {})
-        ok = kin is not None and A.equal(num(E2), num(E))
-        ctx.decide(rule, ok, fac, None, construct="wiring:compute_algorithmic_energy",
-                   detail="compute_algorithmic_energy = compute_newmark_lagrangian(density=materialModel.density, dt, beta=newmarkParameters.beta, material energy, gradient transformation)",
-                   bad_detail=f"the factory's compute_algorithmic_energy gives {num(E)!r} but compute_newmark_lagrangian with the material's density, "
-                              f"the time step and the Newmark beta gives {num(E2)!r}: the factory wires different parameters")
-    except ERR as ex:
-        ctx.undecided(rule, lag, None, construct="wiring:compute_algorithmic_energy", detail=f"cannot interpret compute_newmark_lagrangian: {ex}")
+        if not odd and problem is None:
+            na = W.nonaffine(Dh)
+            if na:
+                s0 = sorted(W.usyms)[0]
+                h = _A.norm(_A.diff(_A.diff(kinh, s0), s0))
+                w = _A.norm(_A.diff(_A.diff(kin_want, s0), s0))
+                bad = (f"d2(inertia part)/dU[0,0]^2 = {short(simplify(h), 200)}, expected the consistent mass entry times 1/(beta*dt^2) = {short(simplify(w), 200)}"
+                       if not _A.is_zero(_A.norm(h - w)) else f"the inertia parts differ by a term that is not affine in U ({short(na[0][0], 80)})")
+        ctx.decide(rule, None if (odd or problem is not None) else tri(bad is None, tainted), fac, None, construct="inertia-factor-hessian",
+                   detail="Hessian of the inertia part = M/(beta dt^2) with the consistent mass: the same factor as the energy and the corrector",
+                   bad_detail=(f"compute_element_hessians: {problem}" if problem is not None else
+                               f"the inertia part contains applications of functions that are not interpreted: {sorted(odd)[:3]}" if odd else
+                               f"{bad}: the tangent is not the derivative of the algorithmic energy's gradient"))
+    # ---- the public (non-factory) entry point agrees with the factory wiring: same density, beta, dt, material energy, kinematics
+    if ctx.repo.find(f"{M}:compute_newmark_lagrangian") is None:
+        ctx.undecided(rule, fac, None, construct="wiring:compute_algorithmic_energy", detail="public function compute_newmark_lagrangian not found")
+    else:
+        t0 = len(I.taint)
+        try:
+            E2 = W.rat(I.call(W.fn(M, "compute_newmark_lagrangian"),
+                              [W.fs, W.U, W.UP, W.Q, rho, dt, beta, W.material("A").get("compute_energy_density"), W.plane_strain_hook()], {}))
+            if E is None:
+                ctx.undecided(rule, fac, None, construct="wiring:compute_algorithmic_energy", detail="the factory's energy closure could not be interpreted")
+            else:
+                ok = _A.equal(E2, E)
+                k2, s2 = W.split_energy(E2)
+                what = "strain" if not _A.equal(s2, se) else "inertia"
+                decide(ctx, S, rule, ok, ee.tainted or len(I.taint) > t0, fac, construct="wiring:compute_algorithmic_energy",
+                           detail="compute_algorithmic_energy = compute_newmark_lagrangian(density=materialModel.density, dt, beta=newmarkParameters.beta, material energy, gradient transformation)",
+                           bad_detail=f"the factory's compute_algorithmic_energy differs in its {what} part from compute_newmark_lagrangian called with the material's density, "
+                                      f"the time step, the Newmark beta, the material's energy density and the plane-strain kinematics: the factory wires different parameters "
+                                      f"({what} part: {short(simplify(kin if what == 'inertia' else se), 160)} vs {short(simplify(k2 if what == 'inertia' else s2), 160)})")
+        except ERR as ex:
+            ctx.undecided(rule, lag, None, construct="wiring:compute_algorithmic_energy", detail=f"cannot interpret compute_newmark_lagrangian: {type(ex).__name__}: {ex}")
+
+
+# ------------------------------------------------------------------ D2/T6: one gradient transformation for all closures of the factory
+
+def material_closures(S, case):
+    """{field: (kinematics dict | error string, Ev)} for the closures of the modelled interface that evaluate the material"""
+    out = {}
+    for field in case.fns.fields:
+        if field not in FIELD_ARGS[case.kind] or case.fns.get(field) is None:
+            continue
+        got, ev = kinematics(S, case, field)
+        if got is None:
+            continue
+        out[field] = (got, ev)
+    return out
+
+
+def t6(ctx, S):
+    rule = "D2/T6-one-gradient-transformation"
+    W, I = S.W, S.W.I
+    fac = ctx.need(f"{M}:{DYN}")
+    n_done = 0
+    for mode, deg in (("plane strain", 1), ("axisymmetric", 0)):
+        case = S.case(DYN, mode, deg)
+        tag = f"[mode2D={mode!r},pressureProjectionDegree={deg}]"
+        if case.rejected is not None:
+            ctx.proved(rule, fac, None, construct=f"{DYN}:{tag}", detail=f"option combination rejected explicitly ({case.rejected})")
+            n_done += 1
+            continue
+        if case.fns is None:
+            ctx.undecided(rule, fac, None, construct=f"{DYN}:{tag}", detail=f"cannot build the factory: {case.error}")
+            continue
+        mc = material_closures(S, case)
+        good = {}
+        for field, (got, ev) in mc.items():
+            if not isinstance(got, dict):
+                ctx.undecided(rule, fac, None, construct=f"{DYN}:{field}:gradient-transformation{tag}", detail=f"cannot interpret {field}: {got}")
+            else:
+                good[field] = (got, ev)
+        en = ENERGY["dyn"]
+        if en not in good:
+            if en not in mc:
+                ctx.undecided(rule, fac, None, construct=f"{DYN}:{en}:gradient-transformation{tag}", detail=f"{en} does not evaluate the material model")
+            continue
+        n_done += 1
+        # group the closures by what they hand to the material, point by point
+        sig = {f: tuple(sorted((p, tuple(sorted(map(repr, ks)))) for p, ks in got.items())) for f, (got, ev) in good.items()}
+        groups = {}
+        for f in good:
+            groups.setdefault(sig[f], []).append(f)
+        unproj = S.case(DYN, mode, None)
+
+        def ignores_projection(fs_):
+            """the group's closures receive exactly the gradients they receive without a pressure projection"""
+            if len(groups) == 1 or unproj.fns is None:
+                return False
+            g0, _ = kinematics(S, unproj, fs_[0])
+            got0 = good[fs_[0]][0]
+            return isinstance(g0, dict) and all(got0.get(p) == g0.get(p) for p in got0)
+        # reference = the largest group among those that honour the option (if the groups differ at all)
+        major = max(groups.values(), key=lambda fs_: (not ignores_projection(fs_), len(fs_), en not in fs_))
+        ref = good[major[0]][0]
+        full = len(ref) == NE * NQ and all(len(v) == 1 for v in ref.values())
+        for field, (got, ev) in good.items():
+            if field in major:
+                ctx.decide(rule, True if (full or field != major[0]) else None, fac, None, construct=f"{DYN}:{field}:gradient-transformation{tag}",
+                           detail=(f"{field} hands the material the same displacement gradients as {', '.join(x for x in major if x != field) or 'itself'}"
+                                   + (" (one gradient per quadrature point)" if field == major[0] else "")),
+                           bad_detail=f"{field} evaluates the material at {len(ref)} of {NE * NQ} quadrature points")
+                continue
+            diff = sorted(p for p in got if p not in ref or got[p] != ref[p])
+            extra = ""
+            if unproj.fns is not None:
+                g0, _ = kinematics(S, unproj, field)
+                if isinstance(g0, dict) and all(got.get(p) == g0.get(p) for p in got):
+                    extra = f"; {field} receives exactly the gradients of pressureProjectionDegree=None: its transformation ignores the pressure projection"
+            tainted = ev.tainted or any(good[m][1].tainted for m in major)
+            decide(ctx, S, rule, False, tainted, fac, construct=f"{DYN}:{field}:gradient-transformation{tag}",
+                       bad_detail=f"{DYN}(mode2D={mode!r}, pressureProjectionDegree={deg}): the closure {field} evaluates the material at displacement gradients that "
+                                  f"differ from those of {', '.join(major)} at quadrature points {diff[:3]}: the closures of one factory use different gradient "
+                                  f"transformations (energy, derivatives and state update would see different kinematics){extra}")
+    if n_done == 0:
+        raise Incomplete("the dynamics factory could not be evaluated with a pressure projection")
+
+
+# ------------------------------------------------------------------ D2/T14: mode2D -> kinematics
+
+def t14(ctx, S):
+    rule = "D2/T14-mode-dispatch"
+    W, I = S.W, S.W.I
+    fac = ctx.need(f"{M}:{DYN}")
+    n_done = 0
+    energy_sig = {}
+    for mode in MODES:
+        case = S.case(DYN, mode, None)
+        if case.rejected is not None:
+            ctx.proved(rule, fac, None, construct=f"{DYN}:{mode}", detail=f"mode rejected explicitly ({case.rejected})")
+            n_done += 1
+            continue
+        if case.fns is None:
+            ctx.undecided(rule, fac, None, construct=f"{DYN}:{mode}", detail=f"cannot build the factory: {case.error}")
+            continue
+        mc = material_closures(S, case)
+        en = ENERGY["dyn"]
+        if en not in mc or not isinstance(mc[en][0], dict):
+            ctx.undecided(rule, fac, None, construct=f"{DYN}:{mode}", detail=f"cannot read the kinematics of {en}: {mc.get(en, ('it does not evaluate the material',))[0]}")
+            continue
+        n_done += 1
+        energy_sig[mode] = mc[en]
+        spec = {(e, q): {S.canon(W.grad_spec(mode, e, q))} for e in range(NE) for q in range(NQ)}
+        what = "[[grad u, 0], [0, u_r/r]] (hoop strain from the interpolated radial displacement and radius)" if mode == "axisymmetric" else "[[grad u, 0], [0, 0]]"
+        bad, und, tainted, seen = [], [], False, []
+        for field, (got, ev) in mc.items():
+            if not isinstance(got, dict):
+                und.append(f"{field}: {got}")
+                continue
+            seen.append(field)
+            wrong = sorted(p for p in got if got[p] != spec.get(p))
+            if wrong or (field == en and len(got) != NE * NQ):
+                bad.append((field, wrong))
+                tainted = tainted or ev.tainted
+        other = [m for m in MODES if m != mode]
+        ran = sorted(q.split(":")[-1] for q in (case.visited | mc[en][1].visited) if q.startswith(M + ":") and "." not in q.split(":")[-1]
+                     and q.split(":")[-1] != DYN)
+        if bad:
+            f0, w0 = bad[0]
+            hoop = ""
+            if mode == "axisymmetric":
+                psp = {(e, q): {S.canon(W.grad_spec("plane strain", e, q))} for e in range(NE) for q in range(NQ)}
+                if all(mc[f0][0].get(p) == psp.get(p) for p in mc[f0][0]):
+                    hoop = " (it is the plane-strain gradient: no hoop strain)"
+            decide(ctx, S, rule, False, tainted, fac, construct=f"{DYN}:{mode}",
+                       bad_detail=f"{DYN}: with mode2D='{mode}' the displacement gradient handed to the material by {', '.join(f for f, _ in bad)} is not {what} "
+                                  f"at quadrature points {w0[:3]}{hoop}"
+                                  + ("; the axisymmetric idealisation needs the hoop strain (mass and volumes carry the 2 pi r weight)" if mode == "axisymmetric" else
+                                     "; only the axisymmetric idealisation has an out-of-plane strain")
+                                  + f"; functions executed for this mode: {', '.join(ran)}")
+        elif und:
+            ctx.undecided(rule, fac, None, construct=f"{DYN}:{mode}", detail=f"cannot read the kinematics of {'; '.join(und)[:300]}")
+        else:
+            ctx.proved(rule, fac, None, construct=f"{DYN}:{mode}", detail=f"'{mode}': the material receives {what} in {', '.join(seen)}")
+    if n_done == 0:
+        raise Incomplete("the dynamics factory could not be evaluated")
+    # the statics factory interprets the option the same way
+    st = ctx.repo.find(f"{M}:{STAT}")
+    if st is None:
+        return
+    for mode in MODES:
+        if mode not in energy_sig:
+            continue
+        sc = S.case(STAT, mode, None)
+        if sc.rejected is not None:
+            continue
+        if sc.fns is None:
+            ctx.undecided(rule, fac, None, construct=f"siblings:{STAT}~{DYN}:{mode}", detail=f"cannot build {STAT}: {sc.error}")
+            continue
+        got, ev = kinematics(S, sc, ENERGY["single"])
+        if not isinstance(got, dict):
+            ctx.undecided(rule, fac, None, construct=f"siblings:{STAT}~{DYN}:{mode}", detail=f"cannot read the kinematics of {STAT}: {got}")
+            continue
+        ref, rev = energy_sig[mode]
+        decide(ctx, S, rule, got == ref, ev.tainted or rev.tainted, fac, construct=f"siblings:{STAT}~{DYN}:{mode}",
+                   detail=f"'{mode}': same kinematics as the statics factory",
+                   bad_detail=f"with mode2D='{mode}' {DYN} hands the material other displacement gradients than {STAT}: the sibling factories interpret the option differently")
 
 
 def variants(repo):
-    from optilint.selftest import Variant, sub, sub_in_func, alpha_rename, reformat
-    P = "optimism/Mechanics.py"
-    return [
-        Variant("algorithmic energy with the unprojected transformation", "optimism/Mechanics.py",
-                sub_in_func("create_dynamics_functions", "    modify_element_gradient = define_pressure_projection_gradient_tranformation(functionSpace, pressureProjectionDegree, modify_element_gradient)",
-                            "    grad_2D_to_3D = modify_element_gradient\n    modify_element_gradient = define_pressure_projection_gradient_tranformation(functionSpace, pressureProjectionDegree, modify_element_gradient)\n    _unused = grad_2D_to_3D"), None),
-        Variant("dynamics: axisymmetric mode selects the plane-strain transformation", "optimism/Mechanics.py",
-                sub("        grad_2D_to_3D = axisymmetric_element_gradient_transformation\n    else:\n        raise ValueError", "        grad_2D_to_3D = plane_strain_gradient_transformation\n    else:\n        raise ValueError"), "D2/T14-mode-dispatch"),
-        Variant("(1-2beta) -> (1-beta)", P, sub("0.5*dt*dt*(1.0 - 2.0*newmarkParameters.beta)*A", "0.5*dt*dt*(1.0 - newmarkParameters.beta)*A"), "D1/T7-newmark-formulas"),
-        Variant("gamma <-> beta in correct", P, sub("        V += dt*newmarkParameters.gamma*A", "        V += dt*newmarkParameters.beta*A"), "D1/T7-newmark-formulas"),
-        Variant("predictor velocity with gamma", P, sub("        V += dt*(1.0 - newmarkParameters.gamma)*A", "        V += dt*newmarkParameters.gamma*A"), "D1/T7-newmark-formulas"),
-        Variant("corrector 1/(beta dt)", P, sub("        A = UCorrection/(newmarkParameters.beta*dt*dt)", "        A = UCorrection/(newmarkParameters.beta*dt)"), "D1/T7-newmark-formulas"),
-        Variant("inertia factor 1/(beta dt)", P, sub("    KE *= 1 / (newmarkBeta*dt**2)", "    KE *= 1 / (newmarkBeta*dt)"), "D2/T7-inertia-wiring"),
-        Variant("inertia of U only", P, sub_in_func("compute_newmark_lagrangian", "integrate_over_block(functionSpace, U - UPredicted, internals, dt,", "integrate_over_block(functionSpace, U, internals, dt,"), "D2/T7-inertia-wiring"),
-        Variant("kinetic density without 1/2", P, sub("    return 0.5*density*np.dot(V, V)", "    return density*np.dot(V, V)"), "D2/T7-inertia-wiring"),
-        Variant("hessian inertia factor", P, sub("kinetic_energy_density(W, density)/(newmarkBeta*dtime**2)", "kinetic_energy_density(W, density)/(newmarkBeta*dtime)"), "D2/T7-inertia-wiring"),
-        Variant("energy gets gamma", P, sub_in_func("create_dynamics_functions", "materialModel.density, dt, newmarkParameters.beta,\n                                          materialModel.compute_energy_density,",
-                                                   "materialModel.density, dt, newmarkParameters.gamma,\n                                          materialModel.compute_energy_density,"), "D2/T7-inertia-wiring"),
-        Variant("reformat", P, reformat(), None),
-        Variant("rename corrector local", P, sub("        A = UCorrection/(newmarkParameters.beta*dt*dt)\n        V += dt*newmarkParameters.gamma*A\n        return V, A",
-                                               "        ANew = UCorrection/(newmarkParameters.beta*dt*dt)\n        V += dt*newmarkParameters.gamma*ANew\n        return V, ANew"), None),
-        Variant("equivalent predictor form", P, sub("0.5*dt*dt*(1.0 - 2.0*newmarkParameters.beta)*A", "dt*dt*(0.5 - newmarkParameters.beta)*A"), None),
-        Variant("equivalent inertia factor", P, sub("    KE *= 1 / (newmarkBeta*dt**2)", "    KE *= 1.0 / (dt*dt*newmarkBeta)"), None),
-        Variant("inertia factor inside the integrand", P, sub("        return kinetic_energy_density(W, density)\n    KE =  FunctionSpace.integrate_over_block(functionSpace, U - UPredicted, internals, dt,\n                                             lagrangian_density, slice(None))\n    KE *= 1 / (newmarkBeta*dt**2)\n",
-                                                               "        return kinetic_energy_density(W, density)/(newmarkBeta*dtime*dtime)\n    KE =  FunctionSpace.integrate_over_block(functionSpace, U - UPredicted, internals, dt,\n                                             lagrangian_density, slice(None))\n"), None),
-        Variant("inertia of the negated difference", P, sub_in_func("compute_newmark_lagrangian", "integrate_over_block(functionSpace, U - UPredicted, internals, dt,", "integrate_over_block(functionSpace, UPredicted - U, internals, dt,"), None),
-        Variant("hessian linearised about U - UPredicted", P, sub("    return f(U, fs.mesh.coords, internals, dt, fs.mesh.conns, fs.shapes, fs.shapeGrads, fs.vols,\n             lagrangian_density, modify_element_gradient)",
-                                                                   "    return f(U - UPredicted, fs.mesh.coords, internals, dt, fs.mesh.conns, fs.shapes, fs.shapeGrads, fs.vols,\n             lagrangian_density, modify_element_gradient)"), "D2/T7-inertia-wiring"),
-        Variant("strain energy without the gradient transformation", P, sub_in_func("compute_newmark_lagrangian", "                                            slice(None), modify_element_gradient=modify_element_gradient)", "                                            slice(None))"), "D2/T7-inertia-wiring"),
-        Variant("strain energy weighted by beta", P, sub_in_func("compute_newmark_lagrangian", "    return SE + KE", "    return newmarkBeta*SE + KE"), "D2/T7-inertia-wiring"),
-    ]
+    from .C15_variants import variants as v
+    return v(repo)
